@@ -134,8 +134,14 @@ type MonClient struct {
 	agent string
 }
 
-func (c *MonClient) GetWaiter(kube.WaitStrategy) (kube.Waiter, error) {
-	return &scriptWaiter{c.w, c.agent}, nil
+// GetWaiter accepts exactly the strategies the real kube.Client accepts (anything else is
+// "unknown wait strategy", as in kube.Client.GetWaiter) and returns the scripted waiter.
+func (c *MonClient) GetWaiter(ws kube.WaitStrategy) (kube.Waiter, error) {
+	switch ws {
+	case kube.LegacyStrategy, kube.StatusWatcherStrategy, kube.HookOnlyStrategy:
+		return &scriptWaiter{c.w, c.agent}, nil
+	}
+	return nil, errors.New("unknown wait strategy")
 }
 
 type scriptWaiter struct {
